@@ -71,3 +71,17 @@ Proof.
   - cbn [ops_no_trename]. repeat split; vm_compute; reflexivity.
   - vm_compute. reflexivity.
 Qed.
+
+(* the canonical serialization that C13_faithful speaks about observes the type denotation (at every level of the
+   element-type chain), the set of invalid metadata keys and the node's overload: two graphs that differ in one of
+   them have different canonical serializations *)
+Definition w3_cells (den : option name) (inv : list name) (ov : name) : list (id * cell) :=
+  [ (1, CType (TWrap 2%N (TBase 0%N 1%N den) None)); (2, CDict []); (3, CMeta (Met [(5%N, MAtom 1%Z)] inv));
+    (4, CValue (Val (Some 1%N) (Some 1) None None None 2 3));
+    (5, CDict []); (6, CMeta meta_empty); (7, CNode (Nod (Some 2%N) 0%N 3%N ov None [Some 4] [] [] None 5 6 []));
+    (8, CDict []); (9, CDict []); (10, CMeta meta_empty);
+    (11, CGraph (Gra (Some 4%N) [4] [] [] [7] None 8 9 10 false)) ].
+Lemma canon_observes_fields den inv ov den' inv' ov' :
+  gcanon (fun x => assoc x (w3_cells den inv ov)) 1 11 = gcanon (fun x => assoc x (w3_cells den' inv' ov')) 1 11 ->
+  den = den' /\ inv = inv' /\ ov = ov'.
+Proof. intros H. cbv in H. injection H as H1 H2 H3. repeat split; assumption. Qed.
